@@ -401,6 +401,49 @@ def fam_source_twice(tier: str) -> Iterator[Dict[str, Any]]:
         yield {"family": "source_twice", "construct": f"two_files_in_{cont}", "files": {"Kconfig": mm(body), "Kconfig.tmpl": cfgblock("S1", ['bool "s1"'], ind=""), "Kconfig.tmpl2": cfgblock("S2", ['bool "s2"'], ind="")}}
 
 
+def fam_source_nested(tier: str) -> Iterator[Dict[str, Any]]:
+    """relative source statements inside sourced files that live in other directories"""
+    leaf = cfgblock("LEAF", ['bool "leaf"', "default y"], ind="")
+    for how_top in ("rsource", "orsource", "source_abs"):
+        for how_mid in ("rsource", "orsource"):
+            for mid_dir, leaf_rel in (("sub", "Kconfig.leaf"), ("sub", "deep/Kconfig.leaf"), ("sub/more", "../Kconfig.leaf"), ("", "sub/Kconfig.leaf")):
+                mid_path = (mid_dir + "/" if mid_dir else "") + "Kconfig.mid"
+                leaf_path = os.path.normpath(os.path.join(mid_dir, leaf_rel))
+                top_line = f'{I}source "$MCKDIR/{mid_path}"' if how_top == "source_abs" else f'{I}{how_top} "{mid_path}"'
+                mid = cfgblock("MID", ['bool "mid"'], ind="") + f'{how_mid} "{leaf_rel}"\n\n' + cfgblock("AFTER", ['int "after"', "default 3 if LEAF", "default 4"], ind="")
+                body = cfgblock("A", ['bool "a"']) + top_line + "\n\n" + cfgblock("TAIL", ['bool "tail"', "depends on LEAF"])
+                yield {"family": "source_nested", "construct": f"{how_top}>{how_mid}:{mid_dir or '.'}:{leaf_rel}", "files": {"Kconfig": mm(body), mid_path: mid, leaf_path: leaf}}
+                # optional source of a file that does not exist, from inside the sub-directory file
+                mid2 = cfgblock("MID", ['bool "mid"'], ind="") + f'orsource "{leaf_rel}.missing"\n\n' + cfgblock("AFTER", ['int "after"', "default 4"], ind="")
+                yield {"family": "source_nested", "construct": f"{how_top}>orsource_missing:{mid_dir or '.'}", "files": {"Kconfig": mm(body.replace("depends on LEAF", "depends on A")), mid_path: mid2}}
+
+
+def fam_after_help(tier: str) -> Iterator[Dict[str, Any]]:
+    """what directly follows a help text (parser 1 fetches that line on a separate code path)"""
+    helpcfg = lambda: f'{I}config H1\n{I}{I}bool "h1"\n{I}{I}help\n{I}{I}{I}Some help.\n'  # noqa: E731
+    followers = {
+        "if_continued": f"{I}if A && \\\n{I}{I}{I}!B\n\n" + cfgblock("T", ['bool "t"'], ind=I * 2) + f"{I}endif\n",
+        "if_continued_no_blank": None,
+        "depends_like_config_continued": f"{I}config T\n{I}{I}bool \\\n{I}{I}{I}\"t\"\n",
+        "menu": f'{I}menu "m"\n\n' + cfgblock("T", ['bool "t"'], ind=I * 2) + f"{I}endmenu\n",
+        "comment_hash": f"{I}# a comment line\n" + cfgblock("T", ['bool "t"']),
+        "macro": f"{I}MV = 3\n\n" + cfgblock("T", ['int "t"', "default $(MV)"]),
+        "source": f'{I}rsource "Kconfig.after"\n',
+        "choice": f'{I}choice\n{I}{I}prompt "c"\n\n' + cfgblock("T", ['bool "t"'], ind=I * 2) + f"{I}endchoice\n",
+        "endmenu": None,
+    }
+    for name, fol in followers.items():
+        for blank in ("\n", ""):
+            if name == "if_continued_no_blank":
+                continue
+            if name == "endmenu":
+                text = mm(AUX + f'{I}menu "outer"\n\n' + "".join("    " + l + "\n" if l else "\n" for l in helpcfg().rstrip("\n").split("\n")) + blank + f"{I}endmenu\n")
+                files = {"Kconfig": text}
+            else:
+                files = {"Kconfig": mm(AUX + helpcfg() + blank + fol), "Kconfig.after": cfgblock("T", ['bool "t"'], ind="")}
+            yield {"family": "after_help", "construct": f"{name}/{'blank' if blank else 'noblank'}", "files": files}
+
+
 def fam_fixtures(tier: str) -> Iterator[Dict[str, Any]]:
     root = common.REPO_ROOT
     pats = ["test/kconfiglib/kconfigs/ok/*.in", "test/kconfiglib/kconfigs/warnings/*.in", "test/kconfiglib/kconfigs/errors/*.in", "test/kconfiglib/kconfigs/Kconfig.*",
@@ -413,7 +456,7 @@ def fam_fixtures(tier: str) -> Iterator[Dict[str, Any]]:
                 yield {"family": "fixture", "construct": os.path.relpath(f, root), "path": f}
 
 
-FAMILIES = (fam_options, fam_expr, fam_structure, fam_lexical, fam_negative, fam_source_twice, fam_fixtures)
+FAMILIES = (fam_options, fam_expr, fam_structure, fam_lexical, fam_negative, fam_source_twice, fam_source_nested, fam_after_help, fam_fixtures)
 
 
 def items(tier: str, seed: int):
